@@ -7,20 +7,34 @@
 (*   WebRtc : A and a second connection B, joined by a UDP relay that holds *)
 (*            DTLS datagrams until `Keys` (so "before keys" is a causal     *)
 (*            fact about the run, not a time);                              *)
-(*   Srtp   : A is the SDP offerer, the remote is a raw socket holding the  *)
-(*            a=crypto keys; `Keys` = the answer is applied;                *)
+(*   Srtp   : the remote is a raw socket holding the a=crypto keys.         *)
+(*            role offerer : A offers; `Keys` = the remote answer is applied *)
+(*            role answerer: the remote offer is applied in the set-up and  *)
+(*              A's answer is created but not yet set; `Keys` = A sets its  *)
+(*              answer (traffic that reaches A's socket before that is      *)
+(*              buffered by the direct transport and handed over when the   *)
+(*              media transport starts);                                    *)
+(*            crypto: the remote description's a=crypto is usable ("ok") or  *)
+(*              not ("none": absent, RTP/AVP downgrade; "suite": unknown    *)
+(*              suite; "key": truncated key) - then no session can ever be   *)
+(*              derived, the connection fails, and must stay shut;          *)
 (*   Rtp    : same rig, no protection negotiated (control: C14 is silent).   *)
-(* phase: "up" (signalled as far as possible without keys) -> "keyed" ->    *)
-(* "closed".                                                                *)
+(* phase: "up" (signalled as far as possible without keys) -> "keyed" or    *)
+(* "failed" -> "closed".                                                    *)
 (***************************************************************************)
 EXTENDS Naturals, Sequences, FiniteSets, TLC
 
-CONSTANTS Modes, MaxLen, Ops, Deviations
+CONSTANTS Modes, Roles, Cryptos, MaxLen, Ops, Deviations
 
-VARIABLES mode, phase, hist, last
+VARIABLES mode, role, crypto,
+          phase,
+          haskeys,   \* a session has been derived
+          early,     \* what unauthenticated traffic reached A's socket before `Keys`: "" | "rtp" | "rtcp"
+                     \* (implementation state - buffered datagrams - the abstract phase does not determine)
+          hist, last
 
-vars == <<mode, phase, hist, last>>
-view == <<mode, phase>>
+vars == <<mode, role, crypto, phase, haskeys, early, hist, last>>
+view == <<mode, role, crypto, phase, haskeys, early>>
 
 AllOps == {"Push", "Raw", "InClearRtp", "InClearRtcp", "InForged", "InValid", "Keys", "Close",
            "InValidNack", "Gap", "KeyFrame", "Report"}
@@ -28,53 +42,73 @@ Required == mode # "Rtp"
 
 Init ==
   /\ mode \in Modes
-  /\ phase = "up"
+  /\ role \in (IF mode = "Srtp" THEN Roles ELSE {"offerer"})
+  /\ crypto \in (IF mode = "Srtp" THEN Cryptos ELSE {"ok"})
+  /\ phase = "up" /\ haskeys = FALSE /\ early = ""
   /\ hist = <<>>
-  /\ last = [op |-> "", w |-> "", d |-> "", aw |-> 0, ad |-> 0, dx |-> 1]
+  /\ last = [op |-> "", w |-> "", d |-> 0, aw |-> 0, ad |-> 0, dx |-> 1]
 
 \* what C14 allows A to put on the wire in this state: 0 nothing, 1 protected only, 2 anything
-AllowW == IF ~Required THEN 2 ELSE IF phase = "up" /\ "FlagFromMode" \notin Deviations THEN 0 ELSE 1
+AllowW == IF ~Required THEN 2 ELSE IF ~haskeys /\ "FlagFromMode" \notin Deviations THEN 0 ELSE 1
 \* may an inbound packet of this class reach a track / observer / feedback channel of A?
-AllowD(auth) == IF ~Required THEN 1 ELSE IF auth = "valid" /\ phase # "up" THEN 1 ELSE 0
+AllowD(auth) == IF ~Required THEN 1 ELSE IF auth = "valid" /\ haskeys THEN 1 ELSE 0
 
 \* the contract's own outcome (exact: EXT).  "p" protected, "c" clear, "" nothing.
-Egress == IF phase # "keyed" THEN (IF "FlagFromMode" \in Deviations /\ phase = "up" /\ mode = "WebRtc" THEN "c" ELSE "")
-          ELSE IF Required THEN "p" ELSE "c"
-Deliver(auth) == IF phase # "keyed" THEN (IF "FlagFromMode" \in Deviations /\ phase = "up" /\ mode = "WebRtc" /\ auth = "clear"
-                                           THEN 1 ELSE 0)
-                 ELSE IF Required THEN (IF auth = "valid" THEN 1 ELSE 0)
-                 ELSE (IF auth = "forged" THEN 0 ELSE 1)
+FallsOpen == "FlagFromMode" \in Deviations /\ ~haskeys /\ Required /\ phase # "closed"
+Egress == IF phase = "keyed" THEN (IF Required THEN "p" ELSE "c")
+          ELSE IF FallsOpen /\ (mode = "WebRtc" \/ phase = "failed") THEN "c" ELSE ""
+Deliver(auth) == IF phase = "keyed" THEN (IF Required THEN (IF auth = "valid" THEN 1 ELSE 0)
+                                          ELSE (IF auth = "forged" THEN 0 ELSE 1))
+                 ELSE IF FallsOpen /\ auth = "clear" /\ (mode = "WebRtc" \/ phase = "failed") THEN 1 ELSE 0
 
 Step(op, w, d, auth, exact) ==
   /\ last' = [op |-> op, w |-> w, d |-> d, aw |-> AllowW,
               ad |-> IF auth = "none" THEN 0 ELSE AllowD(auth), dx |-> exact]
   /\ hist' = Append(hist, op)
 
-Send(op) == Step(op, Egress, 0, "none", 1) /\ UNCHANGED <<mode, phase>>
+Same == UNCHANGED <<mode, role, crypto, phase, haskeys>>
+
+Send(op) == Step(op, Egress, 0, "none", 1) /\ Same /\ UNCHANGED early
 \* (a media sample pushed before keys may be queued and leave, protected, once keys exist: not exact)
-Push == Step("Push", Egress, 0, "none", IF phase = "up" THEN 0 ELSE 1) /\ UNCHANGED <<mode, phase>>
-In(op, auth) ==
+Push == Step("Push", Egress, 0, "none", IF phase = "up" THEN 0 ELSE 1) /\ Same /\ UNCHANGED early
+In(op, auth, kind) ==
   /\ Step(op, "", Deliver(auth), auth,
           \* a valid packet sent before keys is queued at the peer; garbage in the unprotected mode parses or not
           IF (auth = "valid" /\ phase = "up") \/ (auth = "forged" /\ ~Required) THEN 0 ELSE 1)
-  /\ UNCHANGED <<mode, phase>>
+  /\ early' = IF phase = "up" /\ auth # "valid" THEN kind ELSE early
+  /\ Same
 \* (whether accepted feedback becomes visible - key-frame request, retransmission - depends on the media: not exact)
-InRtcp == Step("InClearRtcp", "", Deliver("clear"), "clear", 0) /\ UNCHANGED <<mode, phase>>
+InRtcp ==
+  /\ Step("InClearRtcp", "", Deliver("clear"), "clear", 0)
+  /\ early' = IF phase = "up" THEN "rtcp" ELSE early
+  /\ Same
 \* Egress sources above the transport (the statement lists them): retransmission answering an authenticated NACK,
 \* the receiver's NACK for a hole in valid media, a key-frame request of the application (PLI/FIR), the periodic
 \* sender report. Whether and when they fire depends on media state, so the expectation is not exact; what they put
 \* on the wire is judged like any other datagram.
-Source(op, auth) == Step(op, Egress, IF auth = "valid" THEN Deliver("valid") ELSE 0, auth, 0) /\ UNCHANGED <<mode, phase>>
-Keys == phase = "up" /\ phase' = "keyed" /\ Step("Keys", "", 0, "none", 0) /\ UNCHANGED mode
-Close == phase # "closed" /\ phase' = "closed" /\ Step("Close", Egress, 0, "none", 1) /\ UNCHANGED mode
+Source(op, auth) == Step(op, Egress, IF auth = "valid" THEN Deliver("valid") ELSE 0, auth, 0) /\ Same /\ UNCHANGED early
+\* Keys: the step after which a session exists - or, with an unusable a=crypto, can never exist. What was buffered
+\* before is handed to the new transport in this step: it must not come out at any sink.
+Keys ==
+  /\ phase = "up"
+  /\ phase' = IF crypto = "ok" THEN "keyed" ELSE "failed"
+  /\ haskeys' = (crypto = "ok")
+  /\ Step("Keys", "", 0, IF early = "" THEN "none" ELSE "clear", 0)
+  /\ early' = ""                       \* handed over (and, by the contract, dropped)
+  /\ UNCHANGED <<mode, role, crypto>>
+Close ==
+  /\ phase # "closed" /\ phase' = "closed"
+  /\ Step("Close", Egress, 0, "none", 1)
+  /\ early' = ""
+  /\ UNCHANGED <<mode, role, crypto, haskeys>>
 
 Do(op) ==
   CASE op = "Push" -> Push
     [] op = "Raw" -> Send("Raw")
-    [] op = "InClearRtp" -> In(op, "clear")
+    [] op = "InClearRtp" -> In(op, "clear", "rtp")
     [] op = "InClearRtcp" -> InRtcp
-    [] op = "InForged" -> In(op, "forged")
-    [] op = "InValid" -> In(op, "valid")
+    [] op = "InForged" -> In(op, "forged", "rtp")
+    [] op = "InValid" -> In(op, "valid", "rtp")
     [] op = "InValidNack" -> Source(op, "valid")
     [] op = "Gap" -> Source(op, "valid")
     [] op = "KeyFrame" -> Source(op, "none")
@@ -86,9 +120,10 @@ Next == Len(hist) < MaxLen /\ \E op \in Ops : Do(op)
 Spec == Init /\ [][Next]_vars
 
 \* C14 for the contract's own steps (action properties: `last` is outside the VIEW)
-EgressOK == [][ Required => (last'.w = "" \/ (last'.w = "p" /\ phase # "up")) ]_vars
+EgressOK == [][ Required => (last'.w = "" \/ (last'.w = "p" /\ haskeys)) ]_vars
 IngressOK == [][ (Required /\ last'.d = 1) => last'.ad = 1 ]_vars
 AllowedInside == [][ /\ (last'.w = "p" => last'.aw >= 1) /\ (last'.w = "c" => last'.aw = 2)
-                     /\ (Required => last'.aw <= 1) /\ ((Required /\ phase = "up") => last'.aw = 0) ]_vars
-TypeOK == mode \in {"WebRtc", "Srtp", "Rtp"} /\ phase \in {"up", "keyed", "closed"}
+                     /\ (Required => last'.aw <= 1) /\ ((Required /\ ~haskeys) => last'.aw = 0) ]_vars
+TypeOK == /\ mode \in {"WebRtc", "Srtp", "Rtp"} /\ phase \in {"up", "keyed", "failed", "closed"}
+          /\ (haskeys => crypto = "ok") /\ (phase = "keyed" => haskeys) /\ (phase = "failed" => ~haskeys)
 =============================================================================
